@@ -131,7 +131,29 @@ fn judge_case(ctx: &mut Ctx, rng: &mut Rng, wc: WireCase, eenv: REnv, ets: Vec<R
         Names::new()
     };
     let mutated = mutate && rng.chance(1, 3);
-    let bytes = if mutated { mutate_bytes(rng, &wc.bytes) } else { wc.bytes.clone() };
+    let bytes = if !mutated {
+        wc.bytes.clone()
+    } else if rng.chance(1, 3) {
+        // aimed at the values: the header stays intact, one value byte becomes an impossible bool (a 0/1 byte set to 2..)
+        // or an impossible UTF-8 / length byte. Most of these land in a leaf; whether the leaf is read, skipped as a
+        // surplus field or argument, or sits below an option that gives up is decided by the expected type
+        let mut b = wc.bytes.clone();
+        let hl = crate::model::wire::decode(&b).map(|d| d.header_len).unwrap_or(0).min(b.len());
+        if b.len() > hl {
+            let cands: Vec<usize> = (hl..b.len()).filter(|i| b[*i] <= 1).collect();
+            if !cands.is_empty() && rng.chance(2, 3) {
+                let i = *rng.pick(&cands);
+                b[i] = *rng.pick(&[2u8, 3, 0x7f, 0x80, 0xff]);
+            } else {
+                let i = hl + rng.usize(b.len() - hl);
+                b[i] = *rng.pick(&[0x80u8, 0xc0, 0xff, 0xfe, 0xed]);
+            }
+            ctx.count("cover:mutated:value-byte");
+        }
+        b
+    } else {
+        mutate_bytes(rng, &wc.bytes)
+    };
     let mut hits = Hits::new();
     let (model, dec) = model_at(&bytes, &eenv, &ets, &mut hits);
     for (k, v) in &hits {
